@@ -1114,7 +1114,7 @@ fn main() {
         }
     }
 
-    let mut w = CaseWriter::new(&a.out, "Model.Compile Gen.CompileConsts", "(check_case gen_recent_limit gen_max_refs)", "(model_obs gen_recent_limit gen_max_refs)", 40);
+    let mut w = CaseWriter::new(&a.out, "Model.Compile Gen.CompileConsts", "(check_case gen_recent_limit gen_max_refs gen_ckpt_frame_rule)", "(model_obs gen_recent_limit gen_max_refs gen_ckpt_frame_rule)", 40);
     let mut distinct = Distinct::default();
     let mut seen_classes: BTreeMap<String, u64> = BTreeMap::new();
     for (ci, case) in cases.iter().enumerate() {
